@@ -49,8 +49,17 @@ type Case struct {
 	Rule        string      `json:"rule,omitempty"` // rule the mutation aims at
 	ShuffleSeed uint64      `json:"shuffle_seed"`
 	Note        string      `json:"note,omitempty"`
+	// History: validations performed on the same long-lived schema object before this case
+	// (replay of a history-dependence failure).
+	History []HistStep `json:"history,omitempty"`
 
 	gdoc *GDoc // generated cases only (used for shrinking)
+}
+
+// HistStep is one earlier validation on a long-lived schema object.
+type HistStep struct {
+	Query    string   `json:"query"`
+	Features []string `json:"features,omitempty"`
 }
 
 type obsErr struct {
@@ -975,6 +984,116 @@ func (h *harness) process(c *Case, ev *evaluated) {
 	}
 }
 
+// ---- history: the verdict must not depend on what was validated before on the same schema object --
+
+// onLive validates the history and then the case on one long-lived schema object and returns the
+// case's run.
+func onLive(c *Case, history []HistStep) (realRun, error) {
+	live, err := c.Schema.build(nil)
+	if err != nil {
+		return realRun{}, err
+	}
+	for _, st := range history {
+		if doc, perrs := parser.ParseDocument([]byte(st.Query)); len(perrs) == 0 {
+			validateOnce(doc, live.s, schema.NewFeatureSet(st.Features...))
+		}
+	}
+	doc, perrs := parser.ParseDocument([]byte(c.Query))
+	if len(perrs) > 0 {
+		return realRun{}, fmt.Errorf("does not parse")
+	}
+	return validateOnce(doc, live.s, schema.NewFeatureSet(c.Features...)), nil
+}
+
+// historyFailure compares the case validated after `history` on a long-lived schema with the case on
+// a fresh one.
+func historyFailure(c *Case, fresh realRun, history []HistStep) *failure {
+	got, err := onLive(c, history)
+	if err != nil {
+		return nil
+	}
+	if got.stable() != fresh.stable() {
+		return &failure{"property", fmt.Sprintf("verdict depends on what was validated before on the same schema object: on a fresh schema %q, after %d earlier validations %q", fresh.stable(), len(history), got.stable()), "history"}
+	}
+	return nil
+}
+
+// historyPass re-validates the evaluated cases of one schema on long-lived schema objects, in
+// several orders (batch order then reverse; with-feature cases first; without-feature cases first),
+// each result being compared with the one obtained on a fresh schema.
+func (h *harness) historyPass(cases []*Case, fresh []realRun) {
+	if len(cases) < 2 {
+		return
+	}
+	idx := func(pred func(*Case) bool) []int {
+		var out []int
+		for i, c := range cases {
+			if pred(c) {
+				out = append(out, i)
+			}
+		}
+		return out
+	}
+	all := idx(func(*Case) bool { return true })
+	rev := append([]int{}, all...)
+	for i, j := 0, len(rev)-1; i < j; i, j = i+1, j-1 {
+		rev[i], rev[j] = rev[j], rev[i]
+	}
+	with := idx(func(c *Case) bool { return len(c.Features) > 0 })
+	without := idx(func(c *Case) bool { return len(c.Features) == 0 })
+	orders := [][]int{append(append([]int{}, all...), rev...)}
+	if len(with) > 0 && len(without) > 0 {
+		orders = append(orders, append(append([]int{}, with...), without...), append(append([]int{}, without...), with...))
+		h.run.Count("history:schemas-with-both-feature-sets")
+	}
+	for _, order := range orders {
+		live, err := cases[0].Schema.build(nil)
+		if err != nil {
+			return
+		}
+		var hist []HistStep
+		for _, i := range order {
+			c := cases[i]
+			doc, perrs := parser.ParseDocument([]byte(c.Query))
+			if len(perrs) > 0 {
+				continue
+			}
+			got := validateOnce(doc, live.s, schema.NewFeatureSet(c.Features...))
+			ok := got.stable() == fresh[i].stable()
+			h.run.Oblige("oracle: verdict and errors on a long-lived schema object (after other documents and other feature sets, several orders) = those on a fresh schema", "oracle", 1, ok, "history dependence")
+			if !ok {
+				// shrink the history: drop steps while the difference persists
+				cur := append([]HistStep{}, hist...)
+				budget := 300
+				for changed := true; changed && budget > 0; {
+					changed = false
+					for k := range cur {
+						budget--
+						cand := append(append([]HistStep{}, cur[:k]...), cur[k+1:]...)
+						if historyFailure(c, fresh[i], cand) != nil {
+							cur, changed = cand, true
+							break
+						}
+						if budget <= 0 {
+							break
+						}
+					}
+				}
+				f := historyFailure(c, fresh[i], cur)
+				if f == nil {
+					f = &failure{"property", "verdict depends on what was validated before on the same schema object", "history"}
+				}
+				rc := *c
+				rc.History = cur
+				rc.Note = f.what
+				h.run.Violate("property", f.what, "", false, &rc)
+				return
+			}
+			hist = append(hist, HistStep{Query: c.Query, Features: c.Features})
+		}
+	}
+}
+
 // selfTest feeds the comparison deliberately wrong Lean answers for one rejected corpus case and
 // expects them to be reported: a dropped model error must give a correspondence failure, a flipped
 // specification verdict a property failure.
@@ -1068,6 +1187,11 @@ func main() {
 		if err != nil {
 			fmt.Fprintln(os.Stderr, "replay failed:", err)
 			os.Exit(2)
+		}
+		if len(c.History) > 0 && ev.fail == nil && len(ev.runs) > 0 {
+			ev.fail = historyFailure(&c, ev.runs[0], c.History)
+			got, _ := onLive(&c, c.History)
+			fmt.Printf("after %d earlier validations on the same schema object: %v\n", len(c.History), got.canon())
 		}
 		printReplay(&c, ev)
 		if ev.fail != nil {
@@ -1206,6 +1330,8 @@ func (h *harness) runBatch(batch []*Case) {
 	}
 	var items []item
 	var lines []string
+	var histCases []*Case
+	var histFresh []realRun
 	for _, c := range batch {
 		a, b, doc, perr, err := prepare(c)
 		if err != nil {
@@ -1261,5 +1387,11 @@ func (h *harness) runBatch(batch []*Case) {
 			judge(it.c, it.ev)
 		}
 		h.process(it.c, it.ev)
+		if it.ev.parseErr == "" && it.ev.fail == nil && len(it.ev.runs) > 0 && it.ev.runs[0].Panic == "" &&
+			!(it.ev.lean != nil && it.ev.lean.violates("noFragmentCycles")) {
+			histCases = append(histCases, it.c)
+			histFresh = append(histFresh, it.ev.runs[0])
+		}
 	}
+	h.historyPass(histCases, histFresh)
 }
